@@ -138,6 +138,12 @@ impl Context {
                     self.context.previous_result = Some(raw.clone());
                 }
             }
+            // A time is shown as a duration, but it is a number too.
+            if let Ok(QueryReply::Duration(ref duration)) = value {
+                if let Some(ref raw) = duration.raw.raw_value {
+                    self.context.previous_result = Some(raw.clone());
+                }
+            }
         }
         let value = Success::from(value);
         match serde_wasm_bindgen::to_value(&value) {
@@ -152,6 +158,12 @@ impl Context {
         if self.context.save_previous_result {
             if let Ok(QueryReply::Number(ref number_parts)) = value {
                 if let Some(ref raw) = number_parts.raw_value {
+                    self.context.previous_result = Some(raw.clone());
+                }
+            }
+            // A time is shown as a duration, but it is a number too.
+            if let Ok(QueryReply::Duration(ref duration)) = value {
+                if let Some(ref raw) = duration.raw.raw_value {
                     self.context.previous_result = Some(raw.clone());
                 }
             }
